@@ -64,6 +64,17 @@ def tie_project(rng, root):
             out.append("def copy%d_%d(items, flag):\n%s" % (m, k, body))
         with open(os.path.join(root, "mod%d.py" % m), "w") as f:
             f.write("\n".join(out) + "\n")
+    # a module that imports names and, right after it in the walk order, modules that mention those names WITHOUT importing them (one with a star import
+    # only): whatever per-file state an analysis keeps must not make the report depend on which worker / CPU count handled the neighbour
+    extra = {
+        "shared_names.py": "class Repository:\n    def get(self):\n        return 1\n\nclass Ledger:\n    def put(self, v):\n        self.v = v\n\ndef open_ledger():\n    return Ledger()\n",
+        "a_billing.py": "from shared_names import Repository, Ledger, open_ledger\nimport shared_names as sn\n\nclass Invoice:\n    def total(self):\n        self.repo = Repository()\n        return Ledger().put(open_ledger())\n",
+        "b_handlers.py": "class Handler:\n    def handle(self, x):\n        self.repo = Repository()\n        self.led = Ledger()\n        return open_ledger()\n\nclass Other(Repository):\n    def m(self):\n        return sn.Ledger()\n",
+        "c_star.py": "from shared_names import *\n\nclass StarUser:\n    def run(self):\n        self.r = Repository()\n        return Ledger()\n",
+    }
+    for fn, src in extra.items():
+        with open(os.path.join(root, fn), "w") as f:
+            f.write(src)
 
 
 def run(tier, seed, replay=None):
@@ -97,6 +108,21 @@ def run(tier, seed, replay=None):
             p = os.path.join(tmp, "gen%d" % g, "proj")
             tie_project(rng, p)
             projects.append(("generated tie-rich project %d" % g, p, []))
+        # near-duplicate functions with the LSH candidate path FORCED by the configuration (it is otherwise only taken from 500 fragments on): MinHash
+        # signatures, buckets and the estimated similarities must be the same in every process
+        from . import cloneeng
+        for g in range(1 if tier == "quick" else 4):
+            p = os.path.join(tmp, "lsh%d" % g, "proj")
+            pr = cloneeng.gen_project(rng, nbase=6, nodes=[12, 16, 22])
+            for f in pr.sources():
+                fp = os.path.join(p, f["Path"])
+                os.makedirs(os.path.dirname(fp), exist_ok=True)
+                with open(fp, "w") as fh:
+                    fh.write(f["Src"])
+            cfg = os.path.join(tmp, "lsh%d" % g, "lsh.toml")
+            with open(cfg, "w") as fh:
+                fh.write("[clones]\nmin_lines = 4\nmin_nodes = 8\nlsh_enabled = \"true\"\nlsh_similarity_threshold = 0.3\nsimilarity_threshold = 0.6\n")
+            projects.append(("generated clone project %d, LSH forced" % g, p, ["--select", "clones", "--config", cfg]))
         projects.append(("testdata/python (all), --select complexity,deadcode,cbo", allp, ["--select", "complexity,deadcode,cbo"]))
         projects.append(("generated tie-rich project 0, --select deps,clones", os.path.join(tmp, "gen0", "proj"), ["--select", "deps,clones", "--min-complexity", "1"]))
         for title, proj, extra in projects:
